@@ -274,7 +274,11 @@ class FGen:
     def cond(self, scope):
         ch = self.ch
         simple = not self.ft["rich_when_numeric"]
-        k = ch.weighted([(4, "leaf"), (3, "and"), (2 if self.ft["nested"] else 0, "nested")])
+        k = ch.weighted([(4, "leaf"), (3, "and"), (2 if self.ft["nested"] else 0, "nested"), (2 if self.ft["nested"] else 0, "or")])
+        if k == "or":
+            xs = self.leaves(scope, 2, 3, not self.ft["rich_nested_numeric"])
+            if len(xs) >= 2:
+                return ["or"] + xs
         if k == "leaf":
             x = self.leaf(scope, simple)
             if x is not None:
